@@ -22,6 +22,14 @@ RULE = (
     "in modes ignore/log/raise x validate 0/1. distinct = blake2b(entry point, input, options); non-trivial = the "
     "input is not a well-formed complete message (i.e. an error path or foreign data was exercised)"
 )
+RULE += (
+    ' Also: every input also as bytearray / subclass / memoryview; label option drawn from {1,2,0,True};'
+    ' standard-library BytesIO / BufferedReader / pipe / makefile streams with EVERY prefix of valid'
+    ' streams; streams handing out bytearrays; long runs (> recursion limit) of failing frames; chunk-size'
+    ' lines of 17+ hex digits; log-mode handlers that call next()/read() on their own reader; step budgets'
+    ' on read/recv calls, on counted BytesIO calls and (chunked socket runs) on executed library LINES'
+    ' (sys.monitoring).'
+)
 ASSUMPTIONS = [
     "inputs are bytes objects; streams follow file/socket read semantics (doubles)",
     "termination is a bounded-progress restatement: read/recv calls <= 3*len+16(+faults), decode calls <= 3*bits+70",
